@@ -76,10 +76,23 @@ func (r *Run) execute() *Run {
 	var cr, sr res
 	gotC, gotS := false, false
 	deadline := time.After(patience)
+	// early: result of the client's first Send when it was issued before the
+	// server's handshake had finished (an application sends as soon as its
+	// own constructor returns; that first DATA packet is what lets a server
+	// that restarted its handshake complete)
+	var early chan string
 	for !(gotC && gotS) {
 		select {
 		case cr = <-cliCh:
 			gotC = true
+			if cfg.HsProbe && cr.err == nil && cr.c != nil && !gotS {
+				early = make(chan string, 1)
+				ec := cr.c
+				go func() {
+					ec.SetSendTimeout(30 * time.Second)
+					early <- errStr(ec.Send(Payload(1, 12)))
+				}()
+			}
 		case sr = <-srvCh:
 			gotS = true
 		case <-deadline:
@@ -128,6 +141,10 @@ func (r *Run) execute() *Run {
 			pw.Add(2)
 			go func() {
 				defer pw.Done()
+				if i == 0 && early != nil {
+					perr[i][0] = <-early // already sent
+					return
+				}
 				pair[0].SetSendTimeout(30 * time.Second)
 				perr[i][0] = errStr(pair[0].Send(Payload(1, 12)))
 			}()
